@@ -39,8 +39,9 @@ def mk_material(desc):
     if kind == 'ideal':
         return IdealMaterial(n=desc[1], k=desc[2] if len(desc) > 2 else 0)
     if kind == 'glass':
+        win = desc[3] if len(desc) > 3 and desc[3] else {}
         with quiet():
-            return Material(desc[1], desc[2])
+            return Material(desc[1], desc[2], **win)
     if kind == 'glass_tuple':
         return (desc[1], desc[2])
     if kind == 'glass_str':
@@ -60,8 +61,12 @@ def ref_index(desc, w, prev=None):
         return prev
     if kind == 'ideal':
         return desc[1]
-    m = mk_material(['glass', desc[1], desc[2] if len(desc) > 2 else None]
-                    if kind.startswith('glass') else desc)
+    if kind == 'glass':
+        m = mk_material(desc)
+    else:
+        m = mk_material(['glass', desc[1],
+                         desc[2] if len(desc) > 2 else None]
+                        if kind.startswith('glass') else desc)
     return m.n(w)
 
 
@@ -94,7 +99,10 @@ def mk_aperture(desc):
     return RadialAperture(r_max=desc[0], r_min=desc[1])
 
 
-def surface_kwargs(op):
+def surface_kwargs(op, cache=None):
+    """cache: per-lens dict; surfaces whose op carries the same 'share' tag
+    get the very same material object (as a user reusing one `glass`
+    variable for several elements does)."""
     kw = {}
     st = op.get('stype', 'standard')
     kw['surface_type'] = st
@@ -106,7 +114,13 @@ def surface_kwargs(op):
     if 'thickness' in op:
         kw['thickness'] = op['thickness']
     kw['is_stop'] = bool(op.get('stop', False))
-    kw['material'] = mk_material(op.get('material', ['air']))
+    tag = op.get('share')
+    if tag is not None and cache is not None:
+        if tag not in cache:
+            cache[tag] = mk_material(op.get('material', ['air']))
+        kw['material'] = cache[tag]
+    else:
+        kw['material'] = mk_material(op.get('material', ['air']))
     for k in ('dx', 'dy', 'rx', 'ry', 'tol', 'max_iter', 'norm_x', 'norm_y'):
         if k in op:
             kw[k] = op[k]
@@ -123,11 +137,11 @@ def surface_kwargs(op):
     return kw
 
 
-def apply_build(optic, op):
+def apply_build(optic, op, cache=None):
     """Apply one build operation through the public API."""
     o = op['op']
     if o == 'add_surface':
-        optic.add_surface(**surface_kwargs(op))
+        optic.add_surface(**surface_kwargs(op, cache))
     elif o == 'set_aperture':
         optic.set_aperture(aperture_type=op['type'], value=op['value'])
     elif o == 'set_field_type':
@@ -175,12 +189,15 @@ SAMPLES = [
 ]
 
 
-def new_lens(build_ops):
+def new_lens(build_ops, share=True):
     """A fresh Optic built from recorded build operations (public API, index
     order).  A single {'op': 'sample', 'module', 'name'} op builds one of the
-    bundled sample lenses instead."""
+    bundled sample lenses instead.  share=False gives every surface its own
+    material object even where the operations ask for a shared one (an equal
+    prescription with no aliasing: the reference side of a comparison)."""
     from optiland.optic import Optic
     import importlib
+    cache = {} if share else None
     with quiet():
         if build_ops and build_ops[0]['op'] == 'sample':
             mod = importlib.import_module('optiland.samples.' +
@@ -191,7 +208,7 @@ def new_lens(build_ops):
             lens = Optic()
             rest = build_ops
         for op in rest:
-            apply_build(lens, op)
+            apply_build(lens, op, cache)
     return lens
 
 
